@@ -1,17 +1,23 @@
-(* C19 -- make_Triangle (traces_core.py), the one local shape generator that is small enough to model exactly
-   (definitions only).  Integer vertices; drawn coordinates are given times 1000 (= in mm) so that
-   epsilon = 1e-3 * vec stays integral.
+(* C19 -- make_Triangle (traces_core.py, as of /repo commit 2fa0af8), modelled exactly on integer facets
+   (definitions only).  Drawn coordinates are given times 1000 (= in mm).
 
      vec = np.cross(vert[1] - vert[0], vert[2] - vert[1])
      if np.all(np.cross(magnetization, vec) == 0):
-         epsilon = 1e-3 * vec
-         vert = np.concatenate([vert - epsilon, vert + epsilon])                                   *)
+         vec_len = np.linalg.norm(vec)
+         epsilon = 1e-3 * vec / np.sqrt(vec_len) if vec_len > 0 else vec
+         vert = np.concatenate([vert - epsilon, vert + epsilon])
+
+   sqrt(|vec|) is irrational for most facets.  The executable model is EXACT on the representable facets:
+   those whose |vec|^2 = q^4 for an integer q > 0 dividing every component of vec (then sqrt|vec| = q and
+   1000*epsilon = vec / q is integral); on all other facets it answers None.  For every facet the fourth
+   power of the offset is rational: (1000 * offset)^4 = |vec|^2 -- `tri_nn` below. *)
 From Coq Require Import ZArith List Bool.
 From MV Require Import Lib.OctZ Model.DisplayExec.
 Import ListNotations.
 Open Scope Z_scope.
 
 Definition v3sub (a b : V3) : V3 := v3add a (v3neg b).
+Definition v3div (a : V3) (q : Z) : V3 := let '(x, y, z) := a in (x / q, y / q, z / q).
 Definition cross3 (a b : V3) : V3 :=
   let '(a0, a1, a2) := a in let '(b0, b1, b2) := b in
   (a1 * b2 - a2 * b1, a2 * b0 - a0 * b2, a0 * b1 - a1 * b0).
@@ -19,12 +25,21 @@ Definition cross3 (a b : V3) : V3 :=
 Definition tri_vec (v0 v1 v2 : V3) : V3 := cross3 (v3sub v1 v0) (v3sub v2 v1).
 Definition tri_thickened (mag v0 v1 v2 : V3) : bool := v3eqb (cross3 mag (tri_vec v0 v1 v2)) (0, 0, 0).
 
-Definition make_triangle_x1000 (mag v0 v1 v2 : V3) : list V3 :=
+Definition tri_nn (v0 v1 v2 : V3) : Z := dot3 (tri_vec v0 v1 v2) (tri_vec v0 v1 v2).   (* |vec|^2 *)
+Definition tri_root (v0 v1 v2 : V3) : Z := Z.sqrt (Z.sqrt (tri_nn v0 v1 v2)).           (* sqrt |vec| *)
+Definition tri_repr (v0 v1 v2 : V3) : bool :=
+  let q := tri_root v0 v1 v2 in
+  (0 <? q) && (q * q * (q * q) =? tri_nn v0 v1 v2)
+  && v3eqb (v3smul q (v3div (tri_vec v0 v1 v2) q)) (tri_vec v0 v1 v2).
+
+Definition make_triangle_x1000 (mag v0 v1 v2 : V3) : option (list V3) :=
   let s := v3smul 1000 in
   if tri_thickened mag v0 v1 v2 then
-    let e := tri_vec v0 v1 v2 in
-    [v3sub (s v0) e; v3sub (s v1) e; v3sub (s v2) e; v3add (s v0) e; v3add (s v1) e; v3add (s v2) e]
-  else [s v0; s v1; s v2].
+    if tri_repr v0 v1 v2 then
+      let e := v3div (tri_vec v0 v1 v2) (tri_root v0 v1 v2) in
+      Some [v3sub (s v0) e; v3sub (s v1) e; v3sub (s v2) e; v3add (s v0) e; v3add (s v1) e; v3add (s v2) e]
+    else None
+  else Some [s v0; s v1; s v2].
 
 (* size of the facet: largest coordinate extent (np.ptp(...).max()) *)
 Definition ext3 (a b c : Z) : Z := Z.max a (Z.max b c) - Z.min a (Z.min b c).
@@ -39,5 +54,12 @@ Definition near_plane (v0 v1 v2 d : V3) : bool :=
   let o := dot3 n (v3sub d (v3smul 1000 v0)) in
   o * o <=? 16 * tri_size v0 v1 v2 * tri_size v0 v1 v2 * dot3 n n.
 
-Definition triangle_on_surface (mag v0 v1 v2 : V3) : bool :=
-  forallb (near_plane v0 v1 v2) (make_triangle_x1000 mag v0 v1 v2).
+Definition scale_facet (s : Z) (v : V3) : V3 := v3smul s v.
+
+(* ---- RECORD of the code before 2fa0af8 (epsilon = 1e-3 * vec), kept only to state what was wrong *)
+Definition make_triangle_pre_2fa0af8_x1000 (mag v0 v1 v2 : V3) : list V3 :=
+  let s := v3smul 1000 in
+  if tri_thickened mag v0 v1 v2 then
+    let e := tri_vec v0 v1 v2 in
+    [v3sub (s v0) e; v3sub (s v1) e; v3sub (s v2) e; v3add (s v0) e; v3add (s v1) e; v3add (s v2) e]
+  else [s v0; s v1; s v2].
